@@ -170,6 +170,11 @@ def run(ctx):
         ctx.check(guard.body and guard.body[-1] is inc, 'C09.1', 'cursor:increment-closes-block', f.loc(inc),
                   'the increment is the last statement of the type-code block: it runs once per argument on every non-raising path and never for digits/?',
                   'the increment is not the unconditional last statement of the type-code block')
+    jumps = [x for s_ in guard.body for x in ast.walk(s_) if isinstance(x, (ast.Continue, ast.Return)) or
+             (isinstance(x, ast.Break) and not any(isinstance(a, (ast.For, ast.While)) and a is not loop and x in ast.walk(a) for s2 in guard.body for a in ast.walk(s2)))]
+    ctx.check(not jumps, 'C09.1', 'cursor:no-jump-past-increment', f.loc(jumps[0]) if jumps else site,
+              'no continue/return/break inside the type-code block can skip the cursor increment',
+              'a `%s` inside the type-code block skips the cursor increment: every later argument is read from the wrong slot' % (norm(jumps[0]) if jumps else ''))
     # the union member read is the code itself
     vals = [n for n in guard.body if isinstance(n, ast.Assign) and isinstance(n.value, ast.Subscript) and norm(n.value) == '%s[%s][%s]' % (args_name, cur, cvar)]
     ctx.check(len(vals) == 1 and guard.body[0] is vals[0], 'C09.2', 'union-member:is-code', f.loc(guard), 'the union member read is the one named by the code character: args[cursor][code]',
